@@ -46,6 +46,10 @@ thread_local! {
     }) };
 }
 
+/// Whether a class A refusal also reports its call site (symbolising a backtrace costs
+/// about a second, so it is on only when a single case is re-run for a report).
+pub static SITE_ENABLED: std::sync::atomic::AtomicBool = std::sync::atomic::AtomicBool::new(false);
+
 /// fd that receives one line per refusal (`-1` = none).
 pub static REFUSE_FD: AtomicI32 = AtomicI32::new(-1);
 
@@ -207,7 +211,7 @@ fn account_alloc(size: usize) -> bool {
             a.last_class_a = class_a;
             c.set(a);
             log_refusal(&a, size, class_a);
-            if class_a {
+            if class_a && SITE_ENABLED.load(Ordering::Relaxed) {
                 log_site(c, &a);
             }
             return false;
